@@ -146,7 +146,10 @@ func R15() Rule {
 		pkg := c.P.Pkgs[core.PkgGcsemu]
 		info := pkg.TypesInfo
 		handlers := collectHandlers(c, core.PkgGcsemu)
-		gapiError := lookupMethod(pkg.Types, "GcsEmu", "gapiError")
+		var gapiError types.Object
+		if gf := c.P.Func(core.PkgGcsemu, "(*GcsEmu).gapiError"); gf != nil {
+			gapiError = gf.Object() // through the anchor table: survives a rename
+		}
 		if gapiError == nil {
 			panic(core.Broken("anchor gone: (*GcsEmu).gapiError"))
 		}
